@@ -100,6 +100,14 @@ def deep_stage(ck, checks, tag, which):
     ck.ev.cov["deep_worlds"] = len(cases)
 
 
+def comb_stage(ck, checks, tag):
+    """Depression filling on a comb-shaped lake of 1.7 M nodes (3.4 M thorough), sampled nodes (BigGridTrace!TBigFill)."""
+    q = ck.tier == "quick"
+    cases = list(cg.comb_cases(ck.seed + 800, tag, sizes=((1300, 1300),) if q else ((1300, 1300), (1100, 2600), (2600, 1300))))
+    ck.traces(cases, checks, tag=tag, spec=BIG_SPEC, nontrivial=lambda c: True, timeout_ms=240000, sample_events=("BigFill",), nproc=2)
+    ck.ev.cov["comb_lake_worlds"] = len(cases)
+
+
 def plan_C01(ck):
     q = ck.tier == "quick"
     basin_models(ck, "L2 mst resolver: every terminal state satisfies FlowContract!C01 (terminals, strict descent, reaches a base level), the receivers stay a forest, the tree is a minimal spanning forest, termination")
@@ -112,6 +120,7 @@ def plan_C01(ck):
     if q and ck.violations:
         return
     wrap_stage(ck, ["C01", "C09"], "C01")
+    comb_stage(ck, ["C01"], "c01comb")
     lowest_probe_stage(ck, "C01")
 
 
@@ -127,6 +136,7 @@ def plan_C02(ck):
     if q and ck.violations:
         return
     wrap_stage(ck, ["C02", "C09"], "C02")
+    comb_stage(ck, ["C02"], "c02comb")
     lowest_probe_stage(ck, "C02")
 
 
